@@ -23,9 +23,9 @@ MUTANTS = [
 """, new="", expect="get_name|offset-units-not-prefixed"),
  dict(id="C08-alias-not-indexed", property="C08", file=PR, old="            self._helper_single_adder(alias, unit, self._units, self._units_casei)", new="            self._helper_single_adder(alias, unit, self._units, None)", expect="casei-index|writer=GenericPlainRegistry._add_alias"),
  dict(id="C08-parse-cache-unguarded-write", property="C08", file=PR, old="        if as_delta:\n            cache[input_string] = ret\n", new="        cache[input_string] = ret\n", expect="parse_unit|write-requires-as_delta"),
- dict(id="C08-casei-raw-prefix", property="C08", file=PR, old="""                    for real_name in self._units_casei.get(name.lower(), ()):
+ dict(id="C08-casei-raw-prefix", property="C08", file=PR, old="""                    ):
                         yield (
-                            self._prefixes[prefix].name,""", new="""                    for real_name in self._units_casei.get(name.lower(), ()):
+                            self._prefixes[prefix].name,""", new="""                    ):
                         yield (
                             prefix,""", expect="_yield_unit_triplets|canonical-prefix-name"),
  dict(id="C08-double-prefix-guard-removed", property="C08", file=PR, old="""                        if prefix and name not in self._units_casei.get(
